@@ -121,7 +121,8 @@ def r14_1(ctx, g):
     cname = norm(cases.targets[0])
     ppar = pe.params[1]
     pair_loops = [l for l in pe.node.body if isinstance(l, ast.For)]
-    uses_ok = ok_get = cmp_ok = False
+    uses_ok = ok_get = cmp_ok = cmp_seen = False
+    src_all, look = [], []
     if pair_loops:
         pl0 = pair_loops[0]
         env = {}
@@ -164,7 +165,7 @@ def r14_1(ctx, g):
 
         # `cases.get(key)` followed by an `is None` test reads the table like `cases[key]`
         for c_ in list(walk_own(pl0)):
-            if isinstance(c_, ast.Call) and isinstance(c_.func, ast.Attribute) and c_.func.attr == "get" and norm(c_.func.value) == cname and len(c_.args) == 1 and not c_.keywords:
+            if isinstance(c_, ast.Call) and isinstance(c_.func, ast.Attribute) and c_.func.attr == "get" and norm(c_.func.value) == cname and len(c_.args) in (1, 2) and not c_.keywords:
                 sub_ = ast.Subscript(value=c_.func.value, slice=c_.args[0], ctx=ast.Load())
                 for k_, v_ in list(env.items()):
                     if v_ is c_:
@@ -193,8 +194,26 @@ def r14_1(ctx, g):
             eqs = [tuple(t.replace("(", "").replace(")", "") for t in pr) for pr in eqs]
             for ev_ in evars:
                 want = {frozenset((f"{ev_}[0]", f"{cur}[1:]")), frozenset((f"{ev_}[1]", row + "[1]"))}
+                if any(t.startswith(f"{ev_}[") for pr in eqs for t in pr):
+                    cmp_seen = True
                 if want <= {frozenset(pr) for pr in eqs}:
                     cmp_ok = True
+    if not (uses_ok and ok_get and cmp_ok):
+        missing = [w for w, have in (("a subscript of the step table", bool(src_all)), ("the getattr look-up of the adjacency set", len(look) == 1), ("an equality test on the entries of that set", cmp_seen)) if not have]
+        if missing and pair_loops:
+            # the step is checked through a helper of the node class that looks at neighbour ids only
+            for c_ in walk_own(pair_loops[0]):
+                if isinstance(c_, ast.Call) and isinstance(c_.func, ast.Attribute):
+                    h_ = repo.find_func("gaftools.gfa", f"Node.{c_.func.attr}")
+                    if h_ is None:
+                        continue
+                    reads_sides = any(isinstance(x, ast.Attribute) and norm(x) in ("self.start", "self.end") for x in ast.walk(h_.node))
+                    reads_far = any(isinstance(x, ast.Subscript) and const_value(x.slice, None) == 1 for x in ast.walk(h_.node))
+                    if reads_sides and not reads_far:
+                        ctx.violated("R14.1", pe.where(c_), f"the step is accepted through `{norm(c_)[:60]}`, which only asks whether the other node's id occurs on that side and never compares the far side stored with the entry: with two links between the same nodes on different sides (`L a + b +` and `L b + a +`) or a self-link, a step that follows no single link (`>a<b`) is accepted and spelled", key_of(pe, f"walk-by-id-only:{c_.func.attr}"))
+                        return
+        if missing:
+            raise AnalysisError("R14.1", pe.where(), "the walk check is not in a recognised form (cannot find " + ", ".join(missing) + "): how the table row is selected and used is not decided")
     ctx.check(uses_ok and ok_get and cmp_ok, "R14.1", pe.where(), "the table row is selected by the orientation characters of the two steps; the set of the previous node named by the row is searched for (next node id, far side of the row)", key_of(pe, f"table-use:{uses_ok}:{ok_get}:{cmp_ok}"))
     # every consecutive pair is checked
     rng = [l for l in pe.node.body if isinstance(l, ast.For) and isinstance(l.iter, ast.Call) and norm(l.iter.func) == "range"]
@@ -316,8 +335,9 @@ def r14_2_3(ctx, g):
     res_ = make_resolver(loop.body)  # temporaries of the step loop (node_id = n[1:]) are looked through
     for p in paths:
         apps = [e.node.value for e in p.events if e.kind == "stmt" and isinstance(e.node, ast.Expr) and isinstance(e.node.value, ast.Call) and isinstance(e.node.value.func, ast.Attribute) and e.node.value.func.attr == "append"]
-        fwd = any(canon_test(t, pol) == (f"{n}.startswith('>')", True) or canon_test(t, pol) == (f"{n}[0] == '>'", True) for t, pol in p.tests())
-        rev = any(canon_test(t, pol) == (f"{n}.startswith('<')", True) or canon_test(t, pol) == (f"{n}[0] == '<'", True) for t, pol in p.tests())
+        ctests = [canon_test(res_(t), pol) for t, pol in p.tests()]  # tests read through the loop's temporaries (orient = n[0])
+        fwd = any(ct in ((f"{n}.startswith('>')", True), (f"{n}[0] == '>'", True)) for ct in ctests)
+        rev = any(ct in ((f"{n}.startswith('<')", True), (f"{n}[0] == '<'", True)) for ct in ctests)
         if p.term == "return":
             if const_value(p.term_node.value, "?") != "":
                 bad = (p, f"early return of `{norm(p.term_node.value)}` instead of the empty sequence")
@@ -326,8 +346,8 @@ def r14_2_3(ctx, g):
             bad = (p, f"{len(apps)} pieces appended for one step")
             break
         a = norm(res_(apps[0].args[0]))
-        not_fwd = any(canon_test(t, pol) in ((f"{n}.startswith('>')", False), (f"{n}[0] == '>'", False)) for t, pol in p.tests())
-        not_rev = any(canon_test(t, pol) in ((f"{n}.startswith('<')", False), (f"{n}[0] == '<'", False)) for t, pol in p.tests())
+        not_fwd = any(ct in ((f"{n}.startswith('>')", False), (f"{n}[0] == '>'", False)) for ct in ctests)
+        not_rev = any(ct in ((f"{n}.startswith('<')", False), (f"{n}[0] == '<'", False)) for ct in ctests)
         if two_signs_only and not fwd and not rev:
             # every step starts with '>' or '<' (the tokeniser's pattern): ruling one out establishes the other
             if not_fwd and not not_rev:
